@@ -110,6 +110,9 @@ type ContractDB struct {
 	Funcs  map[string]*FuncContract
 	Specs  map[string]*SpecFunc // pkg-qualified: "jt808.elen"
 	Lemmas map[string]*Lemma
+	// Impls: "pkg.Interface" -> "*Type" / "Type" (same package): assumption that values of the interface type hold that
+	// dynamic type, used to resolve method calls through the interface; reported as an assumption by every unit that uses it
+	Impls  map[string]string
 	Files  []string
 	Errors []string
 }
@@ -366,6 +369,17 @@ func (db *ContractDB) parseFile(pkg, file, text string) {
 			key := pkg + "." + rest
 			cur = &FuncContract{Key: key, Pkg: pkg, Mode: "inline", File: file, Line: l.line}
 			db.Funcs[key] = cur
+		case "impl":
+			// impl Interface *Type
+			if len(fs) != 3 {
+				errf(l.line, "bad impl declaration")
+				continue
+			}
+			if db.Impls == nil {
+				db.Impls = map[string]string{}
+			}
+			db.Impls[pkg+"."+fs[1]] = fs[2]
+			cur = nil
 		case "valid":
 			// valid TypeName v: expr
 			label, src := splitLabel(strings.TrimSpace(strings.TrimPrefix(rest, fs[1])))
@@ -380,7 +394,11 @@ func (db *ContractDB) parseFile(pkg, file, text string) {
 			if cur != nil {
 				cur.Mode = rest
 			}
-		case "requires", "ensures":
+		case "requires", "ensures", "domain":
+			// domain label: expr - a precondition that delimits the inputs the functional clauses speak about (the
+			// property's stated domain). It is assumed when the function itself is verified, but callers are NOT obliged
+			// to establish it: a caller that inlines the function gets it without its contract (safety obligations
+			// only), a caller that uses the contract may assume the postconditions only where the domain held.
 			if cur == nil {
 				errf(l.line, "clause outside func")
 				continue
@@ -395,7 +413,7 @@ func (db *ContractDB) parseFile(pkg, file, text string) {
 				label = fmt.Sprintf("L%d", l.line)
 			}
 			c := Clause{Kind: fs[0], Label: label, Src: src, Expr: e, Line: l.line}
-			if fs[0] == "requires" {
+			if fs[0] == "requires" || fs[0] == "domain" {
 				cur.Requires = append(cur.Requires, c)
 			} else {
 				parts := splitConj(e)
